@@ -26,9 +26,9 @@ MANIFEST = {
             "(openForWritingAt, setKey, slice append, startAppending, closeForWriting, abortWriting, openForReadingAt, chain walk, closeForReading, closeForReadingAndFreeIdle, "
             "freeEntry, freeEntryByKey, freeChain/freeChainAt/rewind): single_writer / exclusive_sessions_unique, strict_exclusive_excludes_readers, "
             "reader_opens_complete_or_appending_with_key, held_entry_stable + free_only_unshared_own_slices + reader_walks_own_slices + pool_slices_unused + pointers_spell_chain "
-            "(slots of a held entry are neither freed nor reused), deleted_not_opened_after_partial (hypothesis: no setKey() overwrote a set waitingToBeFreed), "
-            "deleted_not_opened_after (full when the translator finds a setKey() that only sets the flag), deleted_not_opened_after_counterexample (the code as it stands: "
-            "known finding C55-setkey-clears-mark), validated_runs_are_reachable; two inductive invariants (AInv: 11 counting clauses per anchor; SInv: slice ownership and "
+            "(slots of a held entry are neither freed nor reused), deleted_not_opened_after (full strength: the translator finds, by executing the staged code, a setKey() "
+            "that only ever sets waitingToBeFreed; setKeyOnlySets_holds), deleted_not_opened_after_partial and deleted_not_opened_after_counterexample_prefix (the pre-fix "
+            "shape of setKey(), fixed in /repo 19b0a93), validated_runs_are_reachable; two inductive invariants (AInv: 11 counting clauses per anchor; SInv: slice ownership and "
             "chain structure). Trace validation of the model's atomic actions against scheduler-controlled real code in two granularities (lock methods atomic / every atomic). "
             "Missing for full: updaters (openForUpdating/closeForUpdating/abortUpdating and the fileNos relocation) are not modelled; they run on the real code under the "
             "API-level oracle, which shows that with them the statement is false (known finding C55-update-frees-shared-suffix).",
@@ -326,18 +326,11 @@ def tag(line, impl, model):
 
 
 def classify(line, impl, why):
-    """C55-setkey-clears-mark: a reader opened a deleted entry AND the trace shows setKey()'s store to waitingToBeFreed (the first
-    atomic operation after that thread's call marker) overwriting a set flag of that anchor with 0."""
+    """C55-update-frees-shared-suffix: a slice shared by two editions after closeForUpdating() (the harness names such slices
+    `shared-`) is freed or changed while a reader of the other edition holds it, in a scenario that closes an update.
+    (C55-setkey-clears-mark is fixed in /repo 19b0a93: a reader-opened-deleted-entry is a violation again.)"""
     if ("shared-slice-freed-while-entry-is-read-" in (why or "") or "shared-slice-changed-while-entry-is-read-" in (why or "")) and re.search(r"\bCU:", line):
         return "C55-update-frees-shared-suffix"
-    if "reader-opened-deleted-entry-" not in (why or "") and "updater-opened-deleted-entry-" not in (why or ""):
-        return None
-    f = why.rsplit("-", 1)[-1]
-    last = {}
-    for (t, obj, idx, kind, old, new) in events(impl):
-        if obj == "W" and idx == f and kind == "store" and old == 1 and new == 0 and last.get(t) == "c":
-            return "C55-setkey-clears-mark"
-        last[t] = obj
     return None
 
 
